@@ -137,7 +137,66 @@ var hostilePieces = []string{
 	"?", "=", "!=", "0=0", "stag1", "\x7f", "\x1f", "/",
 }
 
+// lenMode is the length regime of the current case (set from the case's PRNG in genCase): the builder, the escaping and the
+// model are length-agnostic, so lengths are made adversarial on purpose — around format.MaxStringLen (128) and far beyond.
+//
+//	0 short strings only   1 mixed: some strings stretched   2 all-long: every non-empty string > 128 bytes   3 boundary: 127/128/129
+var lenMode int
+
+// targetLen draws a length: the boundary of MaxStringLen, or log-uniform 130 … 4096, or at least 512
+func targetLen(r *verifx.Rng) int {
+	switch r.Pick(35, 40, 25) {
+	case 0:
+		return []int{127, 128, 129}[r.Intn(3)]
+	case 1:
+		n := 130
+		for k := r.Intn(6); k > 0; k-- {
+			n *= 2
+		}
+		return n + r.Intn(n) // 130 … 8319, log-uniform over the octaves
+	}
+	return r.Range(512, 4096)
+}
+
+// stretch pads s with hostile pieces to exactly n bytes (it may cut a multi-byte sequence: the builder works on bytes)
+func stretch(r *verifx.Rng, s string, n int) string {
+	var sb strings.Builder
+	sb.WriteString(s)
+	for sb.Len() < n {
+		if r.Chance(1, 3) {
+			sb.WriteString(hostilePieces[r.Intn(len(hostilePieces))])
+		} else {
+			sb.WriteString("abcdefghijklmnopqrstuvwxyz0123456789"[:r.Range(1, 36)])
+		}
+	}
+	return sb.String()[:n]
+}
+
 func hostile(r *verifx.Rng) string {
+	s := hostileShort(r)
+	if s == "" {
+		return s // emptiness is structural (the empty value), keep it
+	}
+	switch lenMode {
+	case 1:
+		if r.Chance(2, 5) {
+			return stretch(r, s, targetLen(r))
+		}
+	case 2:
+		n := targetLen(r)
+		if n <= 128 {
+			n = 129 + r.Intn(4)
+		}
+		return stretch(r, s, n)
+	case 3:
+		if r.Chance(3, 4) {
+			return stretch(r, s, []int{127, 128, 129}[r.Intn(3)])
+		}
+	}
+	return s
+}
+
+func hostileShort(r *verifx.Rng) string {
 	switch r.Pick(10, 50, 15, 10, 8) {
 	case 0:
 		return ""
@@ -163,7 +222,11 @@ func hostile(r *verifx.Rng) string {
 
 func regexes(r *verifx.Rng) string {
 	if r.Chance(1, 2) {
-		return []string{"^a", "a|b", ".*", "^$", "[a-z]+", "'", "\\\\", "\\'", "^sta.*g$", "\\d+", "(", "\\"}[r.Intn(12)]
+		s := []string{"^a", "a|b", ".*", "^$", "[a-z]+", "'", "\\\\", "\\'", "^sta.*g$", "\\d+", "(", "\\"}[r.Intn(12)]
+		if lenMode == 2 || (lenMode != 0 && r.Chance(1, 3)) {
+			return stretch(r, s, targetLen(r)+2)
+		}
+		return s
 	}
 	return hostile(r)
 }
@@ -197,6 +260,7 @@ func genValue(r *verifx.Rng) tv {
 var rawKinds = []string{"int", "uint", "hex", "ip", "timestamp", "lexenc_float"}
 
 func genCase(r *verifx.Rng, h *verifx.H) *caseT {
+	lenMode = r.Pick(76, 10, 8, 6)
 	c := &caseT{mode: r.Intn(3)}
 	c.from = int64(r.Range(0, 2000000))
 	c.to = c.from + int64(r.Range(0, 100000))
@@ -1360,7 +1424,7 @@ func main() {
 			verifx.List(raws), verifx.List(raw64s), verifx.List(c.by))
 		h.Op("fm in %s", mrefStr(c, c.fim))
 		h.Op("fm notin %s", mrefStr(c, c.fnm))
-		hostileSeen, reSeen, emptySeen, rawSeen, raw64Seen := false, false, false, false, false
+		hostileSeen, reSeen, emptySeen, rawSeen, raw64Seen, longSeen := false, false, false, false, false, false
 		emit := func(pol string, fs []tf) {
 			for _, f := range fs {
 				h.Op("tf %s %d %s %s", pol, f.tagX, verifx.Hex([]byte(f.re2)), valsStr(f.vals))
@@ -1401,6 +1465,16 @@ func main() {
 					if strings.ContainsAny(s, "\x00\n\t\r\b") {
 						h.Stat("string.control", 1)
 					}
+					switch n := len(s); {
+					case n == 127 || n == 128 || n == 129:
+						h.Stat(fmt.Sprintf("string.len=%d", n), 1)
+					case n >= 512:
+						h.Stat("string.len>=512", 1)
+						longSeen = true
+					case n > 129:
+						h.Stat("string.len130-511", 1)
+						longSeen = true
+					}
 				}
 			}
 		}
@@ -1409,6 +1483,10 @@ func main() {
 		if hostileSeen {
 			h.NonTrivial("quote-or-backslash")
 		}
+		if longSeen {
+			h.NonTrivial("string-longer-than-128")
+		}
+		h.Stat(fmt.Sprintf("case.lenmode.%d", lenMode), 1)
 		if reSeen {
 			h.NonTrivial("regex")
 		}
